@@ -1,10 +1,139 @@
+import Sif.Proofs.C02Hooks
+import Sif.Model.Clp.Machine
 import Sif.Spec.C01
 /-
-  C02 — pool units = Σ provider units.  (theorems are added below as they are proved)
+  C02 — Pool units equal the sum of provider units; removals never exceed holdings.
+  Property theorems only.  Quantifier: every history of AMM messages, hooks, heights and policy
+  changes, any number of providers, any magnitudes.
 -/
 namespace Sif.Props.C02
-open Sif Sif.Clp Sif.Spec.C01
+open Sif Sif.Clp Sif.AList
 
-theorem unitsOK_init : unitsOK ({} : St) = true := by decide
+/-- the one excluded step (finding F17): an `AddLiquidity` that hits a pool with an empty side -/
+def OpOK (s : St) : Op → Prop
+  | .add _ sym _ _ => ∀ p, s.getPool sym = some p → p.nBal + p.nLiab ≠ 0 ∧ p.eBal + p.eLiab ≠ 0
+  | _ => True
 
+def RunOK : St → List Op → Prop
+  | _, [] => True
+  | s, op :: rest => OpOK s op ∧ RunOK (step s op) rest
+
+/-- the full statement of the invariant clause of C02 -/
+def reachable_units_Statement : Prop := ∀ ops : List Op, UnitsInv (run {} ops)
+
+/-- one step of the machine preserves "pool units = Σ provider units ∧ every provider record has a
+    pool", for every operation except an add into a pool with an empty side -/
+theorem step_units (s : St) (op : Op) (hinv : UnitsInv s) (hok : OpOK s op) : UnitsInv (step s op) := by
+  cases op with
+  | create a sym n e =>
+    simp only [step, txR]; split
+    · exact createPool_units hinv ‹_›
+    · exact hinv
+  | add a sym n e =>
+    simp only [step, txR]; split
+    · exact addLiquidity_units hinv ‹_› hok
+    · exact hinv
+  | remove a sym w =>
+    simp only [step, txR]; split
+    · exact removeLiquidity_units hinv ‹_›
+    · exact hinv
+  | removeUnits a sym u =>
+    simp only [step, txR]; split
+    · exact removeLiquidityUnits_units hinv ‹_›
+    · exact hinv
+  | swap a sent recv amt mn =>
+    simp only [step]; split
+    · exact swap_units hinv ‹_›
+    · exact hinv
+  | decommission a sym =>
+    simp only [step, txR]; split
+    · exact decommissionPool_units hinv ‹_›
+    · exact hinv
+  | bucket a d n =>
+    simp only [step, txR]; split
+    · exact addToBucket_units hinv ‹_›
+    · exact hinv
+  | endBlock =>
+    simp only [step, hookM]; split
+    · exact (endBlocker_upres ‹_›).unitsInv hinv
+    · exact hinv
+  | epochEnd =>
+    simp only [step, hookM]; split
+    · exact afterEpochEnd_units hinv ‹_›
+    · exact hinv
+  | setHeight h => exact hinv.congr rfl rfl
+  | setParams p => exact hinv.congr rfl rfl
+  | fund a d n => exact hinv.congr rfl rfl
+
+/-- every reachable state satisfies the invariant, for histories of any length (induction over
+    the operation list), provided no add hits an empty-sided pool (F17) -/
+theorem reachable_units_partial (ops : List Op) (s : St) (hinv : UnitsInv s) (hok : RunOK s ops) :
+    UnitsInv (run s ops) := by
+  induction ops generalizing s with
+  | nil => exact hinv
+  | cons op rest ih =>
+    unfold run; simp only [List.foldl]
+    exact ih (step s op) (step_units s op hinv hok.1) hok.2
+
+theorem reachable_units_from_genesis (ops : List Op) (hok : RunOK {} ops) : UnitsInv (run {} ops) :=
+  reachable_units_partial ops {} unitsInv_init hok
+
+/-- a removal burns exactly `lp.units − left` units, never more than the provider holds -/
+theorem removal_burns_at_most_holdings {pool pool' : Pool} {lu left wN wE : Nat}
+    (h : poolAfterRemoval pool lu left wN wE = .ok pool') :
+    pool'.units = pool.units - lu + left ∧ lu ≤ pool.units :=
+  poolAfterRemoval_units h
+
+end Sif.Props.C02
+
+namespace Sif.Props.C02
+open Sif Sif.Clp Sif.AList
+
+/-- decidable version of `OpOK`/`RunOK` (used for the non-vacuity example and by the judge) -/
+def opOKb (s : St) : Op → Bool
+  | .add _ sym _ _ => match s.getPool sym with
+      | none => true
+      | some p => p.nBal + p.nLiab ≠ 0 && p.eBal + p.eLiab ≠ 0
+  | _ => true
+
+def runOKb : St → List Op → Bool
+  | _, [] => true
+  | s, op :: rest => opOKb s op && runOKb (step s op) rest
+
+theorem opOK_of_b {s : St} {op : Op} (h : opOKb s op = true) : OpOK s op := by
+  cases op <;> simp only [OpOK] <;> try trivial
+  rename_i a sym n e
+  intro p hp
+  simp only [opOKb, hp, Bool.and_eq_true, decide_eq_true_eq] at h
+  exact h
+
+theorem runOK_of_b : ∀ (ops : List Op) (s : St), runOKb s ops = true → RunOK s ops := by
+  intro ops
+  induction ops with
+  | nil => intro s _; trivial
+  | cons op rest ih =>
+    intro s h
+    simp only [runOKb, Bool.and_eq_true] at h
+    exact ⟨opOK_of_b h.1, ih _ h.2⟩
+
+/-- a concrete non-trivial history (create, asymmetric add by a second provider, swap, removal)
+    meets the hypothesis of `reachable_units_partial` -/
+def sampleOps : List Op :=
+  [.setParams { registered := ["rowan", "cusdc"] },
+   .fund "alice" "rowan" (10^30), .fund "alice" "cusdc" (10^30), .fund "bob" "rowan" (10^30), .fund "bob" "cusdc" (10^30),
+   .create "alice" "cusdc" (10^21) (2 * 10^21),
+   .add "bob" "cusdc" (10^20) (10^19),
+   .swap "bob" "rowan" "cusdc" (10^18) 0,
+   .removeUnits "bob" "cusdc" (10^19)]
+
+example : runOKb {} sampleOps = true := by decide +kernel
+
+end Sif.Props.C02
+
+namespace Sif.Props.C02
+open Sif Sif.Clp
+/- the sample history really creates a pool with two providers (non-trivial instance) -/
+example : ((run {} sampleOps).getPool "cusdc").map (·.units) = some 1041354635416309115111 := by decide +kernel
+example : ((run {} sampleOps).lpsOf "cusdc").map (fun e => (e.1, e.2.units)) =
+    [("alice", 1000000000000000000000), ("bob", 41354635416309115111)] := by decide +kernel
 end Sif.Props.C02
